@@ -189,7 +189,7 @@ func main() {
 		"part 2: %d asynchronous deliveries from another goroutine a PRNG delay (0..3ms) after the evaluation signalled that it started running, into 6 call-free tight loops (time bound 5s); "+
 		"after every case the Run record is compared with an idle interpreter's; after k<=16, k multiple of 14 or 15, k=71, k=K and after every async case a 22-evaluation battery is compared with an uninterrupted interpreter holding the same definitions; "+
 		"a case is non-trivial when the interrupt was delivered while interpreted code was running (always); distinct by SHA-256 of (shape source, k)", nRandom, K, nAsync))
-	wd := vh.NewWatchdog(rep, 120*time.Second) // generous: the machine may be heavily loaded; a real hang is still reported
+	wd := vh.NewWatchdog(rep, 180*time.Second) // generous: the machine may be heavily loaded; a real hang is still reported
 	cw := vh.NewCases(a, "From Coq Require Import List Arith ZArith.\nFrom Verif Require Import C13.Model.\nImport ListNotations.", "case", "mismatches", perShard)
 
 	idx := 0
